@@ -100,6 +100,12 @@ CHECKS["C17"] = dict(engine="XH+SMT",
     note=_XH_NOTE + " " + _SMT_NOTE,
     ref="DESIGN.md section 6 C17")
 
+CHECKS["C09"] = dict(
+    technique="bounded symbolic execution of the six TcrLevenshtein metric classes on tables with symbolic index labels, symbolic V-allele choice, free CDR strings and symbolic edit weights (CrossHair + z3); tidytcells' gene reference is a symbolic dictionary",
+    text="calc_cdist_matrix[i,j] equals the sum over chains and loops in scope of chain_weight*loop_weight*weighted-Levenshtein(loop_i, loop_j) (CDR1/CDR2 from the row's V allele, empty when the allele lacks the loop); hence additivity of the paired metrics, independence from index labels (symbolic, duplicates allowed) and row order; calc_pdist_vector is the condensed upper triangle; non-tables raise ValueError; caller's tables untouched (cell identity).",
+    note=_XH_NOTE + " Chain/loop weights are distinct primes in most conditions (a swap is observable) and symbolic in dedicated 1x1 conditions.",
+    ref="DESIGN.md section 6 C09")
+
 NOT_APPLICABLE = {}
 
 def main():
